@@ -488,6 +488,10 @@ func writeEvidence(prop, tier string, seed int, units []*UnitResult, undecided, 
 		},
 	}
 	b, _ := json.MarshalIndent(ev, "", " ")
-	os.MkdirAll("/verif/evidence", 0o755)
-	os.WriteFile(filepath.Join("/verif/evidence", prop+".json"), b, 0o644)
+	dir := "/verif/evidence"
+	if os.Getenv("GOCV_REPO") != "" {
+		dir = "/verif/out/scratch-evidence" // developer runs against a scratch tree never touch the evidence
+	}
+	os.MkdirAll(dir, 0o755)
+	os.WriteFile(filepath.Join(dir, prop+".json"), b, 0o644)
 }
